@@ -462,7 +462,9 @@ func (w *walker) havocLoop(s *state, fr *frame, h *ssa.BasicBlock) {
 func defaultOrLocal(l *Loc) *Term {
 	d := defaultContent(l)
 	if d.Op == "zero" {
-		return mk("local")
+		// a local object: named by its root (type and creation ordinal), so that two
+		// havoc'd locals of one loop stay distinguishable
+		return mk(l.Root + strings.Join(l.Path, ""))
 	}
 	return d
 }
@@ -1433,8 +1435,7 @@ func (w *walker) builtin(s *state, fr *frame, name string, args []*Term, x *ssa.
 				parts = append(parts, e)
 			}
 		}
-		s.nextID++
-		l := &Loc{Root: fmt.Sprintf("M%d", s.nextID), Len: -1, NonNil: args[0].Op == "ref" && args[0].Loc.NonNil || len(parts) > 0}
+		l := &Loc{Root: s.localRoot("M", x.Type()), Len: -1, NonNil: args[0].Op == "ref" && args[0].Loc.NonNil || len(parts) > 0}
 		s.hset(l, mk("cat", parts...))
 		return refTerm(l)
 	case "ssa:wrapnilchk":
@@ -1511,7 +1512,7 @@ func (w *walker) uninterpreted(s *state, fr *frame, instr ssa.CallInstruction, a
 		if written && i == 0 && (c.Op == "zero" || c.Op == "zeros" || !readsRecv || PureDest[name]) {
 			continue // pure destination: fresh object, or a callee that never reads its receiver
 		}
-		if written && i == 0 && a.Op == "ref" && len(c.Args) == 0 && c.String() == defaultContent(a.Loc).String() {
+		if written && i == 0 && a.Op == "ref" && len(c.Args) == 0 && c.String() == defaultContent(a.Loc).String() && !RecvInput[name] {
 			continue // destination whose previous content is just the initial, never-written memory of a parameter
 		}
 		cargs = append(cargs, c)
@@ -1674,6 +1675,23 @@ var PureDest = map[string]bool{
 	"MontgomeryPoint.SetEdwards":            true,
 	"EdwardsPoint.SetCompressedY":           true,
 	"RistrettoPoint.SetCompressed":          true,
+}
+
+// RecvInput lists methods whose receiver's PREVIOUS value is an operand (a
+// conditional update keeps it when the choice is 0): it is always rendered.
+var RecvInput = map[string]bool{
+	"Element.ConditionalSwap":                   true,
+	"Element.ConditionalNegate":                 true,
+	"Element.ConditionalAssign":                 true,
+	"montgomeryProjectivePoint.conditionalSwap": true,
+	"EdwardsPoint.ConditionalAssign":            true,
+	"projectiveNielsPoint.ConditionalNegate":    true,
+	"projectiveNielsPoint.ConditionalAssign":    true,
+	"affineNielsPoint.ConditionalNegate":        true,
+	"affineNielsPoint.ConditionalAssign":        true,
+	"cachedPoint.ConditionalNegate":             true,
+	"cachedPoint.ConditionalAssign":             true,
+	"Scalar.ConditionalAssign":                  true,
 }
 
 // invokeWrites: which arguments (receiver = 0) an interface call may write.
